@@ -8,7 +8,11 @@ package bfe_tls
 
 import (
 	"encoding/hex"
+	"io"
+	"net"
+	"strconv"
 	"strings"
+	"time"
 )
 
 func verifC45Hex(b []byte) string {
@@ -385,4 +389,110 @@ func VerifC45CertificateRequest(has bool, types []byte, sigs []byte, cas [][]byt
 func VerifC45SessionState(vers, suite uint16, master []byte, certs [][]byte) []byte {
 	s := &sessionState{vers: vers, cipherSuite: suite, masterSecret: master, certificates: certs}
 	return s.marshal()
+}
+
+// verifC45Conn is an in-memory transport: Read serves the given bytes and then io.EOF, Write discards.
+type verifC45Conn struct{ in []byte }
+
+func (f *verifC45Conn) Read(p []byte) (int, error) {
+	if len(f.in) == 0 {
+		return 0, io.EOF
+	}
+	n := copy(p, f.in)
+	f.in = f.in[n:]
+	return n, nil
+}
+func (f *verifC45Conn) Write(p []byte) (int, error)        { return len(p), nil }
+func (f *verifC45Conn) Close() error                       { return nil }
+func (f *verifC45Conn) LocalAddr() net.Addr                { return &net.TCPAddr{IP: net.IPv4(127, 0, 0, 1), Port: 443} }
+func (f *verifC45Conn) RemoteAddr() net.Addr               { return &net.TCPAddr{IP: net.IPv4(127, 0, 0, 2), Port: 40000} }
+func (f *verifC45Conn) SetDeadline(t time.Time) error      { return nil }
+func (f *verifC45Conn) SetReadDeadline(t time.Time) error  { return nil }
+func (f *verifC45Conn) SetWriteDeadline(t time.Time) error { return nil }
+
+// VerifC45ReadHandshake runs the REAL Conn.readHandshake (record reassembly in c.hand, length and type
+// dispatch, unmarshal) on a handshake message delivered as the given plaintext handshake records
+// (one record per chunk, record version = vers).  haveVers selects the state before / after the ClientHello.
+// Up to three messages are read; result: "<kind> ok <fields>" per message and/or a final "err:<class>", joined by ';'.
+func VerifC45ReadHandshake(vers uint16, haveVers bool, chunks [][]byte) string {
+	var wire []byte
+	for _, ch := range chunks {
+		wire = append(wire, 22, byte(vers>>8), byte(vers), byte(len(ch)>>8), byte(len(ch)))
+		wire = append(wire, ch...)
+	}
+	c := &Conn{conn: &verifC45Conn{in: wire}, config: &Config{}}
+	c.vers = vers
+	c.haveVers = haveVers
+	// read up to three messages FIRST, keep them, render them only afterwards: a message that still aliased the
+	// connection's reassembly buffer would be damaged by the reads that follow it
+	var msgs []interface{}
+	var rerr error
+	for i := 0; i < 3; i++ {
+		m, err := c.readHandshake()
+		if err != nil {
+			rerr = err
+			break
+		}
+		msgs = append(msgs, m)
+	}
+	var out []string
+	for _, m := range msgs {
+		out = append(out, verifC45KindAndFields(m))
+	}
+	if rerr != nil {
+		out = append(out, verifC45HsErr(rerr))
+	}
+	return strings.Join(out, ";")
+}
+
+func verifC45HsErr(err error) string {
+	switch err {
+	case io.EOF:
+		return "err:eof"
+	case io.ErrUnexpectedEOF:
+		return "err:ueof"
+	}
+	if oe, ok := err.(*net.OpError); ok {
+		if a, ok := oe.Err.(alert); ok {
+			return "err:alert:" + strconv.Itoa(int(a))
+		}
+	}
+	return "err:other"
+}
+
+func verifC45KindAndFields(m interface{}) string {
+	kind := "?"
+	switch x := m.(type) {
+	case *clientHelloMsg:
+		kind = "chl"
+	case *serverHelloMsg:
+		kind = "shl"
+	case *newSessionTicketMsg:
+		kind = "nst"
+	case *certificateMsg:
+		kind = "crt"
+	case *serverKeyExchangeMsg:
+		kind = "ske"
+	case *certificateRequestMsg:
+		kind = "cr0"
+		if x.hasSignatureAndHash {
+			kind = "cr1"
+		}
+	case *serverHelloDoneMsg:
+		kind = "shd"
+	case *certificateVerifyMsg:
+		kind = "cv0"
+		if x.hasSignatureAndHash {
+			kind = "cv1"
+		}
+	case *clientKeyExchangeMsg:
+		kind = "cke"
+	case *finishedMsg:
+		kind = "fin"
+	case *certificateStatusMsg:
+		kind = "cst"
+	case *nextProtoMsg:
+		kind = "npn"
+	}
+	return kind + " ok " + verifC45Render(m.(handshakeMessage))
 }
